@@ -87,19 +87,35 @@ C04_Which(i, o, k) ==
 Oversized(i, t) ==
   \E k \in {0} : \/ i.opts.maxHead # 0 /\ MinOf(SeriesCands(i, k, t)) > i.opts.maxHead
                  \/ MinOf(TotalCands(i, k, t)) > i.opts.maxProc
-\* no relief can be triggered and nothing that is unplaced needs room, apart from oversized targets
+\* "never causes a scale-up": a scale-up is attributable to oversized targets alone when nothing
+\* else can need room: every unscraped healthy target is oversized, and every in-sync shard would
+\* be below all relief thresholds without the oversized targets it reports.
 UnscrapedHealthy(i) ==
   {t \in ActiveSet(i) : /\ ~\E k \in Sh(i) : StatusOK(i, k) /\ t \in Reported(i, k)
                         /\ \E e \in ExplRecs(i) : e.t = t /\ e.health = "up"}
-NoReliefTrigger(i) ==
+\* A shard that reports a target which alone exceeds the limit of a dimension stays over that limit
+\* whatever else is moved away; if everything else it reports fits under the relief threshold, no
+\* need for room in that dimension can be attributed to anything but the oversized target.
+RECURSIVE SumRecs(_, _)
+SumRecs(S, f) == IF S = {} THEN 0
+                 ELSE LET r == CHOOSE x \in S : TRUE
+                      IN (IF f = "series" THEN r.series ELSE r.total) + SumRecs(S \ {r}, f)
+NoLegitRelief(i) ==
   \A k \in Sh(i) : InSync(i, k) =>
-     /\ i.shards[k].proc < i.opts.maxProc
-     /\ (i.opts.maxHead # 0 => i.shards[k].head * 10 < i.opts.maxHead * 11)
+     LET bigP == {r \in RepRecs(i, k) : r.total > i.opts.maxProc}
+         bigH == {r \in RepRecs(i, k) : r.series > i.opts.maxHead}
+     IN /\ \/ i.shards[k].proc < i.opts.maxProc
+           \/ bigP # {} /\ i.shards[k].proc - SumRecs(bigP, "total") < i.opts.maxProc
+        /\ \/ i.opts.maxHead = 0
+           \/ i.shards[k].head * 10 < i.opts.maxHead * 11
+           \/ bigH # {} /\ (i.shards[k].head - SumRecs(bigH, "series")) * 10 < i.opts.maxHead * 11
+AnyOversizedReported(i) ==
+  \E k \in Sh(i) : \E r \in RepRecs(i, k) : r.total > i.opts.maxProc \/ (i.opts.maxHead # 0 /\ r.series > i.opts.maxHead)
 C04_OversizedScaleUp(i, o) ==
   /\ \A k \in Sh(i) : InSync(i, k)
-  /\ NoReliefTrigger(i)
-  /\ UnscrapedHealthy(i) # {}
+  /\ NoLegitRelief(i)
   /\ \A t \in UnscrapedHealthy(i) : Oversized(i, t)
+  /\ (UnscrapedHealthy(i) # {} \/ AnyOversizedReported(i))
   /\ Len(o.scales) > 0
   /\ LET n == o.scales[Len(o.scales)]
          cap == IF NSh(i) > i.opts.minShard THEN NSh(i) ELSE i.opts.minShard
@@ -198,6 +214,8 @@ C08(i, o) ==
                                                \/ (IndexOf(o.reqs[k], "targets") # 0 /\ IndexOf(o.reqs[k], "targets") < 3))}}
   \cup {[f |-> "config-body-wrong", k |-> k] :
       k \in {k \in Sh(i) : "cfgBodyOK" \in DOMAIN o /\ ~o.cfgBodyOK[k]}}
+  \cup {[f |-> "moved-to-shard-not-in-sync", k |-> p[1], t |-> p[2]] :
+      p \in {p \in C05_Unpaired(i, o) : \E k \in Sh(i) : ~InSync(i, k)}}
   \cup {[f |-> "assigned-twice", t |-> t] :
       t \in {t \in ActiveSet(i) :
                /\ \E k \in Sh(i) : StatusOK(i, k) /\ ~InSync(i, k) /\ t \in Reported(i, k)
